@@ -149,10 +149,19 @@ def build_ops(rng, insts, vinfo, floating=(), explicit_nodes=True, validate=True
         if per_inst_meta:
             md = dict(rng.choice([{}, {'i': rng.randint(0, 9)}, meta]))
         ops.append(['add_edge', a, b, ty, md, validate])
+    single = {v for v, _ in floating if sum(1 for w, _ in floating if w == v) == 1
+              and not any(v in (s, d) for s, _, d, _, _, _ in insts)}
     for v, lag in floating:
         o = node_op(v, lag)
         if o:
-            ops.insert(rng.randint(0, len(ops)), o)
+            if rng.random() < 0.3:
+                o = ['add_node_obj', o[1], o[2], o[3]]          # the node arrives as a Node object
+            at = rng.randint(0, len(ops))
+            ops.insert(at, o)
+            if v in single and rng.random() < 0.3:
+                # ... and its attributes are changed later, in place (the variable has this one node)
+                vt2, md2 = rng.choice(VTYPES), dict(rng.choice(NODE_METAS), late=v)
+                ops.insert(rng.randint(at + 1, len(ops)), ['replace_node', o[1], None, None, None, vt2, md2])
     return ops
 
 
@@ -268,6 +277,14 @@ def build(case):
     for i, op in enumerate(case['ops']):
         if (hk >> (i % 60)) & 3 == 0:
             probe_before_create(g, op)
+        if (hk >> ((i + 7) % 60)) & 7 == 0 and op[0] in ('add_node', 'add_node_obj') and isinstance(op[1], str):
+            # a refused edge against time between two nodes of the variable this call is about to create: both end points
+            # are created and must be rolled back, in every index
+            v = own_parse(op[1])[0]
+            try:
+                g.add_edge(fmt(v, 7), fmt(v, -7), validate=bool((hk >> i) & 1))
+            except Exception:  # noqa: BLE001
+                pass
         if impl.apply_op(g, op) != 'ok':
             rejected += 1
     # state-preserving interactions (see harness/gen.py): rejected edges, partially failing bulk adders, detours through
